@@ -247,6 +247,9 @@ func (f *g2lFn) forStmt(s *ast.ForStmt, rest kont) []string {
 	if s.Post != nil {
 		nodes = append(nodes, s.Post)
 	}
+	if s.Cond != nil {
+		nodes = append(nodes, s.Cond) // a condition may call an in-out method
+	}
 	carried := f.assignedOuter(nodes, s.Body.Pos())
 	ex := map[*types.Var]bool{}
 	for _, v := range carried {
